@@ -49,16 +49,22 @@ RULE = ("one run = one seeded history (30-90 calls) of the broad workload "
         "ledger was evaluated")
 TECHNIQUE = ("conservation monitor (reference-count ledger per stored key / "
              "value object, live-instance count at quiescence) over seeded "
-             "histories with error paths, comparison faults and cache "
-             "eviction; the same plans on the ASan+UBSan+assert build")
+             "histories with error paths, comparison faults, cache "
+             "eviction, hostile operands and finalizer re-entry (user "
+             "callbacks injected inside operations); the same plans on the "
+             "ASan+UBSan+assert build")
 LEVEL_TEXT = ("Seeded broad histories (incl. failing calls, comparison "
               "faults, set algebra and operators, conflict merges, range "
               "sequences, pickling, commits / aborts / evictions) on "
               "object-keyed and object-valued families, 4 kinds, C "
               "implementation: exact reference ledger after every call "
               "(transient) or live-instance and baseline check at "
-              "quiescence (stored); the same plans on the ASan+UBSan build "
-              "with assertions. Sampling.")
+              "quiescence (stored); operands whose inspection raises "
+              "(__class__, __iter__, __next__, items, __len__) must not "
+              "crash; stored objects whose __del__ looks at the (transient) "
+              "container again while an operation releases them must find "
+              "it sound (_check()) and must not touch freed memory; the same "
+              "plans on the ASan+UBSan build with assertions. Sampling.")
 
 OBJ_FAMS = [f for f in FAMILIES if f != "fs" and (f[0] == "O" or f[1] == "O")]
 
